@@ -5,8 +5,10 @@ set -e
 cd "$(dirname "$0")"
 export GOFLAGS=-mod=mod GOPROXY=off GOSUMDB=off GOTOOLCHAIN=local
 ./coq/mk_coqproject.sh
-( cd coq && timeout 3000 make -j16 )
-./ocaml/build_model.sh
+# -k: one broken proof file must not prevent the other properties' checks from being set up;
+# every ./check re-runs make for its own targets and reports a failure there as its own alarm.
+( cd coq && ulimit -v 16000000 && timeout 3000 make -k -j16 COQC='timeout 1500 coqc' ) || echo 'note: coq build incomplete; the affected ./check will report it'
+./ocaml/build_model.sh || echo 'note: some driver did not build; the affected ./check will report it'
 cp /repo/go.sum harness/go.sum
 ( cd harness && timeout 900 go build -o bin/harness . ) || echo 'note: whole-package harness build failed; per-property binaries are built by ./check' || echo 'note: whole-package harness build failed; per-property binaries are built by ./check'
 if [ -d translator ]; then cp /repo/go.sum translator/go.sum 2>/dev/null || true; ( cd translator && timeout 900 go build -o bin/translator . ); fi
